@@ -30,7 +30,7 @@ RULE = ('family = one database description (1-3 merged parts, 0-3 datasets of 0-
         'is alive; invalid descriptions are rejected. Non-trivial = a lifetime / file / '
         'mutation event happened between two requests; distinct = distinct (description, '
         'history).')
-PROBES = ['duplicate_between_two_later_parts', 'two_database_objects_with_common_names', 'alias_only_in_later_part', 'extra_top_level_scalar_with_merge',
+PROBES = ['rejection_repeated_on_retry', 'duplicate_between_two_later_parts', 'two_database_objects_with_common_names', 'alias_only_in_later_part', 'extra_top_level_scalar_with_merge',
           'request_after_gc_rebuilt', 'identity_while_held', 'file_removed_after_load',
           'unpickled_database_answered', 'invalid_description_rejected']
 BUDGET = {
@@ -247,6 +247,18 @@ def run(case):
                     db.data
             except Exception as e:
                 err = e
+            if not ok_merge and err is not None and db is not None:
+                # asking again must not silently answer from a half-merged state
+                names_ = sorted({n_ for p_ in parts for n_ in p_['datasets']})
+                try:
+                    db.data
+                    if names_:
+                        list(db.get_dataset(names_[0]))
+                    bad('invalid_description_accepted', 'invalid_description_accepted:on_retry',
+                        'a description with %s was rejected at first but a second access '
+                        'was answered' % case['invalid'])
+                except Exception:
+                    probes['rejection_repeated_on_retry'] = 1
             if not ok_merge:
                 if err is None:
                     bad('invalid_description_accepted', 'invalid_description_accepted:' + str(case['invalid']).split(':')[0],
